@@ -366,6 +366,8 @@ def finish_check(prop, tier, seed, runs, t0, rule, min_events, assumptions, extr
                 counters[k] = min(counters.get(k, v), v) if v else counters.get(k, 0)
             else:
                 counters[k] = counters.get(k, 0) + v
+        if res.get("preemptions_injected"):
+            counters["preemptions_injected_by_signal"] = counters.get("preemptions_injected_by_signal", 0) + res["preemptions_injected"]
         for k, v in res.get("hook_hits", {}).items():
             hook_hits[k] = hook_hits.get(k, 0) + v
         for k, v in res.get("hook_delays", {}).items():
